@@ -148,6 +148,7 @@ CLAIMED = {
         "C19_exit_nonzero (Ctrl-C at any point or any failure gives a non-zero exit status for every result list), C19_fail_fast_cancels (under fail-fast the first failure sets the token for good), about Par.v and Cli.v. "
         "Correspondence: the real binary, serial and -j 2..4: the fake engine sends SIGINT to the CLI at its k-th request for every k (thorough) / a spread incl. the CREATE and DROP phases (quick), and --fail-fast with the failing file at every position: "
         "exit status, no session or SQL after the interrupt, every session reaches EOF, every CREATE has its DROP, JUnit with one case per file, termination, automaton acceptance with the Cancel event. "
+        "C19_driver_quiet_after_cancel / C19_driver_fates_after_cancel: in the driver model, from the moment the token is set no step opens a session or sends a statement, and every file reported afterwards gets the result its state at that moment dictates (Skipped if it had not looked at the token, Cancelled if it was running, its own result if it was already shutting down). "
         "C19_driver_progress / C19_driver_never_doomed: in the driver model Driver.v no reachable state short of the end is stuck and a measure bounds the remaining steps - the logic of the drivers, the per-file tasks and the RUNNING_TESTS lock has "
         "no deadlock and no livelock, whatever the scheduler did and whenever Ctrl-C or a fail-fast cancellation struck (with jobs >= 1; -j 0 hangs in model and code alike, see DESIGN 0.8).",
    ref="4/C19", technique="Coq proof (observer automaton with Cancel + bookkeeping model + progress/termination measure on the small-step driver model) + signal injection at every request against the real binary",
